@@ -42,7 +42,7 @@ def floors(tier):
     return {"distinct_nontrivial": 300, "variants_compared": 5000, "cls:variant_syntactically_different": 3000,
             "cls:decl_order_permuted": 1000, "cls:sel_order_permuted": 500, "cls:split_top_and": 100,
             "cls:nvars=3": 300, "cls:nvars=4": 100, "cls:for_all_query": 200, "cls:flatten_query": 100, "cls:flatten_of_plain_numbers": 60, "cls:concatenate_query": 100, "cls:feature_interaction_query": 150,
-            "cls:subquery_operand_before_its_parent_is_bound": 100, "re:cls:scale:.*": 100}
+            "cls:subquery_operand_before_its_parent_is_bound": 100, "re:cls:scale:.*": 100, "cls:selected_attribute_expression_under_a_disjunction_with_ties": 200}
 
 
 def cases(spec, ctx):
@@ -131,6 +131,16 @@ def cases(spec, ctx):
         # (a share of the selections contain an attribute expression next to plain variables: set_of([x.a, y], ...))
         case = multi.gen_case(rng, nvars=(1, nv_hi), depth=(1, 4), allow_expr_sel=rng.random() < 0.5)
         n_variants = 3
+        forced_variant = None
+        if i % 30 == 17:
+            # a selected ATTRIBUTE expression next to a plain variable, under a disjunction whose second alternative holds for several
+            # objects that tie on the plain variable; one variant has the alternatives swapped
+            A_ = lambda vi, f: ["v", vi, [["a", f]]]
+            c1 = ["cmp", rng.choice(["==", ">"]), A_(0, "a"), A_(1, "a")]
+            c2 = ["cmp", rng.choice(["<=", "!=", ">="]), A_(0, "b"), ["lit", rng.randint(1, 3)]]
+            case = {"world": D.random_world(rng, np_=(4, 7), nq=(2, 4)), "kinds": ["P", "Q"], "cond": ["or", c1, c2],
+                    "sel": [["v", 0, [["a", rng.choice(["s", "b", "a"])]]], 1]}
+            forced_variant = ["or", c2, c1]
         if i % 45 == 9:
             # SIZE: big joins and self-joins, 6-9 operands, IN-lists written out over two same-type variables, 5-6 variables
             fl = ["join_big", "wide_join", "wide_or_eq", "selfjoin_big", "many_vars", "wide_or_eq", "wide_join"]
@@ -151,6 +161,9 @@ def cases(spec, ctx):
                 perm.append(pr)
             variants.append({"cond": C.rewrite(case["cond"], rng), "order": order, "sel": sel, "perm": perm,
                              "split": rng.random() < 0.4})
+        if forced_variant is not None:
+            variants[0]["cond"] = forced_variant
+            case["expr_sel_under_or"] = True
         case["variants"] = variants
         yield case
 
@@ -357,6 +370,8 @@ def check_case(case, ctx):
     ctx.cls(f"cls:nvars={nv}")
     if case.get("scale"):
         ctx.cls("cls:scale:" + case["scale"])
+    if case.get("expr_sel_under_or"):
+        ctx.cls("cls:selected_attribute_expression_under_a_disjunction_with_ties")
     base_v = {"cond": case["cond"], "sel": case["sel"], "order": None, "perm": None, "split": False}
     try:
         if case.get("scale"):
